@@ -256,6 +256,8 @@ class Counter(Monitor):
 
 
 def setup(concepts, spec):
+    from .. import probes
+    probes.install(['fromlist'])
     cap = CAP[spec['tier']]
     attach.attach_ctor(concepts)
     cx = concepts.contexts
